@@ -183,6 +183,47 @@ def cosim_one(args):
         chans = [conn.channel(rpc_timeout=3) for _ in range(sc['nchan'])]
         results = {}
 
+        if sc['event'] == 'confirm-return':
+            # one confirming channel, two publishers: A's mandatory message is returned as unroutable (Return, then the Ack
+            # that completes the confirm), B publishes routable messages.  The returned-message error belongs to A, once.
+            ch = chans[0]
+            ch.confirm_deliveries()
+            ch.queue.declare('pq')
+
+            def pub_a():
+                try:
+                    r = ch.basic.publish(b'a' * sc.get('return_size', 0), 'no-such-queue', mandatory=True)
+                    results[0] = ('returned-message-reported-as', None, repr(r), 0)
+                except amqpstorm.AMQPMessageError as why:
+                    results[0] = ('message-error', why.error_code, str(why), 0)
+                except amqpstorm.AMQPError as why:
+                    results[0] = ('other-error', getattr(why, 'error_code', None), repr(why)[:80], 0)
+
+            def pub_b():
+                n = 0
+                try:
+                    amqpstorm.channel.time.sleep(sc['delay'])
+                    for k in range(sc['ops']):
+                        r = ch.basic.publish(b'b%d' % k, 'pq', mandatory=bool(k % 2))
+                        if r is not True:
+                            results[1] = ('routable-publish-reported-as', None, repr(r), n)
+                            return
+                        n += 1
+                    results[1] = ('done', n)
+                except amqpstorm.AMQPMessageError as why:
+                    results[1] = ('message-error', why.error_code, str(why), n)
+                except amqpstorm.AMQPError as why:
+                    results[1] = ('other-error', getattr(why, 'error_code', None), repr(why)[:80], n)
+            ta, tb = ctx.spawn(pub_a, 'pubA'), ctx.spawn(pub_b, 'pubB')
+            ctx.join(ta)
+            ctx.join(tb)
+            ctx.quiesce()
+            parked = sum(1 for e in ch.exceptions if isinstance(e, amqpstorm.AMQPMessageError))
+            out['results'] = dict(results)
+            out['results'][2] = ('parked', parked)
+            out['closed_flags'] = [c.is_closed for c in chans] + [conn.is_closed]
+            return
+
         def caller(i):
             def fn():
                 n = 0
@@ -261,6 +302,17 @@ def cosim_one(args):
     out['thread_excs'] = [(t.name, repr(t.exc)) for t in ctx.sched.threads if t.exc is not None]
     res = out.get('results', {})
     ev, code = sc['event'], sc['code']
+    if ev == 'confirm-return' and res:
+        a, b, parked = res.get(0), res.get(1), res.get(2, ('parked', 0))[1]
+        if a is None or b is None:
+            pass
+        elif not (a[0] == 'message-error' and a[1] == 312):
+            out['problems'].append(('returned-message-not-raised-by-its-publisher', 0, a[:3]))
+        elif b[0] != 'done':
+            out['problems'].append(('returned-message-raised-by-another-publisher', 1, b[:3]))
+        elif parked:
+            out['problems'].append(('returned-message-raised-and-still-parked', 0, ('parked', parked)))
+        return out
     for i in range(sc['nchan']):
         r = res.get(i)
         if r is None:
@@ -312,6 +364,11 @@ def check(rep):
                       'code': rng.choice([404, 403, 406]) if ev == 'chan-close' else rng.choice([320, 541, 504]),
                       'delay': rng.choice([0.0, 0.005, 0.01, 0.02, 0.05]), 'consumer': rng.random() < 0.4,
                       'getter': ev == 'return' and rng.random() < 0.6, 'return_size': rng.choice([0, 0, 7, 300, 9000])}, rng.randrange(1 << 30)))
+    # a returned mandatory message on a confirming channel with a second publisher
+    for _ in range(60 if not thorough else 1000):
+        jobs.append(({'nchan': 1, 'ops': rng.randint(1, 4), 'event': 'confirm-return', 'code': 312,
+                      'delay': rng.choice([0.0, 0.0, 0.001, 0.003, 0.01]), 'consumer': False, 'getter': False,
+                      'return_size': rng.choice([0, 7, 300, 9000])}, rng.randrange(1 << 30)))
     # returned messages (with content) arriving while basic.get calls are pending on the same channel
     for _ in range(60 if not thorough else 1000):
         jobs.append(({'nchan': rng.randint(1, 2), 'ops': 8, 'event': 'return', 'code': 312, 'delay': rng.choice([0.0, 0.005, 0.01, 0.02]),
